@@ -6,6 +6,7 @@ From Coq Require Import List Arith Bool.
 Import ListNotations.
 From Coq Require Import String.
 From TF Require Import Model.Crash Proofs.Crash Gen.Calls Proofs.Calls.
+From TF Require Gen.CallsC05 Proofs.CallsC05.
 
 (* at every instant the sidecar on disk (if any) marks only chunks whose bytes
    are in the data file *)
@@ -57,3 +58,11 @@ Proof. eexists. split; [vm_compute; reflexivity|reflexivity]. Qed.
    not a history of the model (and the correspondence checks real traces obey it) *)
 Example C05_mark_before_write_rejected : run [fresh 2] [Mark 0 1] = None.
 Proof. reflexivity. Qed.
+
+(* the same order in the legacy windowed receiver (RecvManifest / RecvFile): its
+   chunk-writer goroutine writes, leaves if the write failed, and only then
+   records the chunk - read off manifestproto.go on this run *)
+Theorem C05_legacy_write_then_mark :
+  TF.Gen.CallsC05.windowed_writer = ["call:writeAtWithTimeout"; "ret-on-err"; "call:MarkComplete"]%string.
+Proof. exact TF.Proofs.CallsC05.windowed_write_guard_mark. Qed.
+Print Assumptions C05_legacy_write_then_mark.
